@@ -169,6 +169,9 @@ Proof.
   symmetry. exact H.
 Qed.
 
+Lemma esc_as_enc_from p : esc p = enc_from 0 p.
+Proof. rewrite <- enc_fold_esc, enc_fold_from. reflexivity. Qed.
+
 (* the frame written with the encoder's loop; equal to the specification's [frame] *)
 Definition frame_enc (m : list byte) : list byte :=
   let body := fst (enc_fold m) in
